@@ -5,7 +5,7 @@ from __future__ import annotations
 
 import ast
 
-from tiv.astutil import ancestors, body_walk, call_name, dotted, enclosing_stmt, flatten_boolop, guards, kw, names_loaded, norm, rename, short, stores_in, walk_local
+from tiv.astutil import ancestors, conds, body_walk, call_name, dotted, enclosing_stmt, flatten_boolop, guards, kw, names_loaded, norm, rename, short, stores_in, walk_local
 from tiv.match import find_stmts, match_expr, match_stmt
 from tiv.mutate import M
 from tiv.sem import expand, trace, same_bool
@@ -76,19 +76,22 @@ def run(ck, m):
     ss = m.get(CM, "BaseImage.set_size")
     # each of width and height is rejected when it is an int <= 0: directly, or through a loop variable ranging over both
     covered = set()
-    for s in body_walk(ss):
-        if not (isinstance(s, ast.If) and s.body and isinstance(s.body[0], ast.Raise)):
+    import re as _re
+    for r_ in body_walk(ss):
+        if not isinstance(r_, ast.Raise):
             continue
-        b_ = match_expr("isinstance($v, int) and $v <= 0", s.test) or match_expr("isinstance($v, int) and $v < 1", s.test) or match_expr("isinstance($v, int) and not $v > 0", s.test)
-        if b_ is None or not isinstance(b_["v"], ast.Name):
-            continue
-        v_ = b_["v"].id
-        if v_ in ("width", "height"):
-            covered.add(v_)
-            continue
-        loop = next((a_ for a_ in ancestors(s) if isinstance(a_, ast.For) and any(isinstance(t_, ast.Name) and t_.id == v_ for t_ in ast.walk(a_.target))), None)
-        if loop is not None:
-            covered |= {n_ for n_ in names_loaded(expand(ss, loop.iter, use=loop)) if n_ in ("width", "height")}
+        L = conds(r_)          # the literal conditions under which this raise runs (enclosing tests, guard clauses, conjunctions split)
+        for lit in L:
+            mo = _re.fullmatch(r"(\w+) (<= 0|< 1)", lit) or _re.fullmatch(r"not (\w+) > 0", lit)
+            if not mo or f"isinstance({mo.group(1)}, int)" not in L:
+                continue
+            v_ = mo.group(1)
+            if v_ in ("width", "height"):
+                covered.add(v_)
+                continue
+            loop = next((a_ for a_ in ancestors(r_) if isinstance(a_, ast.For) and any(isinstance(t_, ast.Name) and t_.id == v_ for t_ in ast.walk(a_.target))), None)
+            if loop is not None:
+                covered |= {n_ for n_ in names_loaded(expand(ss, loop.iter, use=loop)) if n_ in ("width", "height")}
     ck.ob("R1", ss, covered == {"width", "height"}, f"set_size must reject non-positive integer dimensions (both width and height; found for {sorted(covered)})", stmt="set_size: rejects dimensions <= 0")
 
     # ---- R2 ----------------------------------------------------------------------------
@@ -135,6 +138,11 @@ def run(ck, m):
             elif isinstance(rv, ast.Tuple) and len(rv.elts) == 2:
                 m0 = match_expr("self.rendered_size[0] * $u", rv.elts[0]) or match_expr("$u * self.rendered_size[0]", rv.elts[0]) or match_expr("self.rendered_width * $u", rv.elts[0])
                 m1 = match_expr("self.rendered_size[1] * $u", rv.elts[1]) or match_expr("$u * self.rendered_size[1]", rv.elts[1]) or match_expr("self.rendered_height * $u", rv.elts[1])
+                one = {"u": ast.Constant(value=1)}          # an axis returned as it is: multiplied by 1
+                if m0 is None and norm(rv.elts[0]) in ("self.rendered_size[0]", "self.rendered_width"):
+                    m0 = one
+                if m1 is None and norm(rv.elts[1]) in ("self.rendered_size[1]", "self.rendered_height"):
+                    m1 = one
                 if m0 is not None and m1 is not None:
                     pair = [norm(m0["u"]), norm(m1["u"])]
         ck.expect(pair is not None, f"{cname}._get_render_size: neither `tuple(map(mul, self.rendered_size, <pair>))` nor `(cols * u0, lines * u1)`")
